@@ -158,6 +158,112 @@ CHECKS.append({
     "design_ref": "DESIGN.md section 7, C13",
 })
 
+CHECKS.append({
+    "property_id": "C02",
+    "text": ("coq/Props/C02.v over coq/Model/LogixWrite.v (encode_value, write / fragmented / read-modify-write packets with set_bit and masks, "
+             "MultiServiceRequestPacket.build_message, _send_write_fragmented, packets materialised from the planner model) composed with the "
+             "reference target's own handlers (Spec/TargetLogix.v, Spec/TargetCore.v dispatch) and the reference interpretation Spec/Expect.v. "
+             "Proved (C02_partial + separate theorems, all universally quantified): rmw_effect — for ALL old values and ALL bit lists merged per "
+             "tag, (old lor OR) land AND changes exactly the named bits, last write wins, masks at the tag's width (Z.testbit reasoning); "
+             "encode_value_sound (BOOL-array alignment rule, ceil(n/32), truncation, too-short list, scalar -> [scalar]); build_message_once; "
+             "write/fragment/RMW message layouts read back by the spec parser and accepted by the target's services; applied_once (each valid "
+             "request executes exactly one write service, merged bit writes once per group, failed ones never); write_correct_{value, array, "
+             "string (LEN + truncation to capacity), bool, bits, bools (whole DWORDs), bool_element, bool_slice1, struct (dict input, by induction "
+             "over template nesting under a computable layout guard)}: target memory after the model's request = ref_write, one executed-write "
+             "event, success reply; multi_packet_executes (a Multiple Service Packet executes its embedded requests in order); "
+             "frag_transfer_correct (every fragment accepted, final memory = one store of the whole value); read-after-write for atoms. NOT "
+             "proved (stated in Props/C02.v as what C02_full still lacks): structures with BOOL-array members, BOOL members overlaying a visible "
+             "host, top-level slices of arrays of structures/strings; path resolution and request parsing enter as hypotheses (C09/C03). Those "
+             "are exercised on the implementation by the oracle on every run: real LogixDriver.write against the live target, memory compared "
+             "byte for byte with ref_write, every other tag unchanged, one executed write per request, read-back."),
+    "note": COMMON_NOTE + " C02: closed under the global context (coqchk: no axioms). REAL rounding enters as a hypothesis.",
+    "technique": "Coq proof (bitwise reasoning, induction over templates/fragments; client model composed with the reference target) + correspondence of frames and results + byte-for-byte memory oracle through the live target",
+    "design_ref": "DESIGN.md section 7, C02",
+})
+CHECKS.append({
+    "property_id": "C03",
+    "text": ("Theorem C03_holds (coq/Props/C03.v) over coq/Model/LogixParse.v (_parse_tag_request / _get_tag_info / _parse_requested_tags), "
+             "coq/Model/LogixResults.v (result assembly of read/write, _send_requests keyed by request id, RMW fan-out) and the planner model, for "
+             "EVERY request list (any n incl. 0 and duplicates, non-string request objects) and every peer: tag_truthy_iff; no exception escapes "
+             "read()/write(); result_shape (n = 1 -> a Tag, otherwise a list of exactly n); result_names (i-th result answers the i-th request "
+             "and carries its name, without {n} on success); invalid_falsy (unknown tag/member, parse failure, request that cannot be built, "
+             "controller error status, unencodable / too-short value, misaligned BOOL-array write -> falsy Tag with non-empty error); isolation "
+             "(the result list is a map over the requests of a function of the single request, against peers that answer each service "
+             "independently) — resting on read_plan_partition / write_multi_partition. Induction over request lists. Tie: correspondence of the "
+             "model parser with the real _parse_tag_request on grammar strings + single/double edits, of result assembly on recorded replies, and "
+             "the oracle through real read/write against the live target (shape, names, falsy+error per invalidity class decided by the "
+             "reference interpretation, isolation against each request issued alone on restored memory)."),
+    "note": COMMON_NOTE + " C03: closed under the global context. encode_value's type-directed part is an abstract parameter fed from the real encode_value by the harness; replies are taken as parsed (C13's model).",
+    "technique": "Coq proof (induction over request lists on top of the planner partition theorems) + model/implementation correspondence + isolation oracle through the live target",
+    "design_ref": "DESIGN.md section 7, C03",
+})
+CHECKS.append({
+    "property_id": "C10",
+    "text": ("Theorem C10_holds (coq/Props/C10.v) over coq/Model/Lifecycle.v (driver state and dstep mirroring open, _register_session, "
+             "with_forward_open, _forward_open, generic_message, send/_send/_receive with _abandon_transport, close, _forward_close, "
+             "_un_register_session, __enter__/__exit__, LogixDriver.open's initialisation; constants and message field lists regenerated) "
+             "composed with the reference target's tstep/tclosed (Spec/TargetCore.v, any handler), universally over handler, target configuration "
+             "and policy, injections, driver kind, route, EVERY fault schedule (k-th connect/send/send_after/recv/close raises, reply dropped, peer "
+             "vanishes) and EVERY history of Open | Close | GenericConnected | GenericUnconnected | ConnectedCall | WithBlock, by induction over "
+             "the operation list with an invariant relating driver and target state: no_connected_before_fo (every delivered SendUnitData frame "
+             "finds its session and the connection id it carries in the target's tables, preceded without TCP reset by a granted RegisterSession "
+             "and Forward Open), fo_order (standard Forward Open only after a refused Large one; sizes 4000 / 500 as read by the target's "
+             "parser), library_exceptions_only, close_resets (driver reset, target holds no session or connection), reopen_works. Tie: "
+             "correspondence of outcome, driver state, target tables and every socket event between model and real CIPDriver/LogixDriver on "
+             "exhaustive short histories x policies x sampled faults against the live target; oracle from the target's tables and log only."),
+    "note": COMMON_NOTE + " C10: closed under the global context. Reply validity rules are re-modelled here (no bridging lemma to C13's model); the init_tags=True upload is abstracted to a connected call in the theorems and runs in an oracle-only stage.",
+    "technique": "Coq proof (state-machine invariant by induction over histories and fault schedules, client model composed with the reference target) + history correspondence with fault injection",
+    "design_ref": "DESIGN.md section 7, C10",
+})
+CHECKS.append({
+    "property_id": "C14",
+    "text": ("Theorems C14_holds / C14_time_holds (coq/Props/C14.v) over coq/Model/Generic.v (generic_message argument normalisation and route "
+             "resolution, connected / UCMM / Unconnected Send packet layouts, wrap_unconnected_send, response value raw or decoded, helpers; "
+             "keyword arguments and part orders regenerated) against the spec-side composition of the target's parsers coq/Spec/GenericSpec.v "
+             "(frame, message router, Unconnected Send, path): delivered_verbatim — for every in-domain call in all three modes with data of ANY "
+             "length up to 60000 (pad byte by parity case analysis), the emitted frame parses and the spec extracts exactly the transport, "
+             "session, service, class/instance/attribute, data and, for an Unconnected Send, priority, ticks and route that were asked (incl. "
+             "the default route and the no-route case); reply_returned (value = reply data unchanged, or its decoding); reply_refused (status "
+             "1..255 -> falsy Tag whose text starts with the status text); time_roundtrip for every us < 2^64 against the target's clock "
+             "object. Tie: byte-for-byte frame correspondence and Tag comparison on ~4k calls per quick run through the real drivers against the "
+             "live target; oracle = the target's logged request tuple and reply."),
+    "note": COMMON_NOTE + " C14: closed under the global context. An explicitly given route on direct UCMM is appended by design (Forward Open relies on it) and is outside the judged domain; class/attribute ids >= 2^16, service codes >= 128 and status 6 over a connection are not judged; routes use ports 1..14.",
+    "technique": "Coq proof (spec parser of emitted frames = requested tuple, for all payload lengths) + frame/Tag correspondence through the live reference target",
+    "design_ref": "DESIGN.md section 7, C14",
+})
+CHECKS.append({
+    "property_id": "C07",
+    "text": ("coq/Props/C07.v over the shared codec model coq/Model/Codec.v against the independent arithmetic reference codec coq/Spec/Wire.v "
+             "(div/mod layout, Flocq for REAL/LREAL, hand-written table of documented CIP type codes): encode_is_spec and decode_is_spec by "
+             "induction on the type term — for every value and EVERY byte pattern (stream semantics, fuel) the model's outcome is the "
+             "reference's, under computable guards that exclude exactly the deviation classes of the real code; structtag_layout pointwise "
+             "(members at offsets, BOOL members in host bits, zero padding); type_codes (every documented code maps to a type of that width, on "
+             "the regenerated rows); round32/widen32 = Flocq's binary_round on every bit pattern. C07_full is REFUTED by vm_compute witnesses "
+             "replayed on the real code (13 known-finding classes: STRING2/STRINGN character width, zero-count STRINGN, bit-array truncation, "
+             "arrays of n_bytes, DATE_AND_TIME arity/size, StructTag members out of offset order, silent short reads); C07_guarded is proved. "
+             "Tie: the extracted reference vs the real T.encode/T.decode (1-byte types exhaustive, floats vs Flocq, prefix limits, random "
+             "templates, truncations) plus model/implementation correspondence."),
+    "note": COMMON_NOTE + " C07: Print Assumptions lists only the stdlib real-number/classical axioms Flocq brings (ClassicalDedekindReals.sig_not_dec, sig_forall_dec, functional_extensionality_dep, Classical_Prop.classic); type_codes is closed. STRINGI, IPAddress, PCCC types, identity structs and Array(L, T) have no reference (model correspondence only).",
+    "technique": "Coq proof (model = independent arithmetic reference codec, induction on type terms; Flocq) + reference-vs-implementation differential oracle",
+    "design_ref": "DESIGN.md section 7, C07",
+})
+CHECKS.append({
+    "property_id": "C08",
+    "text": ("coq/Props/C08.v over the shared codec model (whose primitives raise foreign exceptions exactly where Python's do and whose public "
+             "wrappers sit where the code's do): decode_lib (every decode error is DataError/BufferEmpty after the wrappers, any fuel/type/"
+             "buffer), decode_terminates (hprogress t -> every fuel above the buffer length suffices; nested induction on type terms), "
+             "unbounded_array_hangs (the exact hang condition), strict_decode / no_short_fixed_width (strict fixed-width types consume exactly "
+             "their width), buffer_empty_at_end, encode_lib + enc_foreign_escapes (exact guard for the TypeError escapes), encode_rejects, "
+             "decode_all_exact. C08_full's six clauses are each REFUTED by vm_compute witnesses replayed on the real code (15 known-finding "
+             "classes: Array.encode(None) TypeError, Struct.encode dropping members, silent short reads, unbounded arrays over zero-width "
+             "elements never terminating, zero-count STRINGN, ...); C08_guarded proves all clauses under the exact guards. Tie: shared "
+             "model/implementation correspondence (malformed stream: every truncation point, junk, out-of-domain values) with the implementation "
+             "run in a forked child under an alarm (HANG is an observation)."),
+    "note": COMMON_NOTE + " C08: closed under the global context (coqchk -o: no axioms). 'BufferEmptyError where a value should start' is read as 'at the end of the buffer' (stated in the evidence assumptions).",
+    "technique": "Coq proof (exception algebra and termination by nested induction on type terms with explicit fuel) + malformed-input correspondence with hang detection",
+    "design_ref": "DESIGN.md section 7, C08",
+})
+
 _PENDING = "vertical not yet built in this session (see DESIGN.md section 9 staging); decided by Coq proof + correspondence when it lands"
 _CLAIMED = {c["property_id"] for c in CHECKS}
 NOT_APPLICABLE = [{"property_id": f"C{i:02d}", "reason": _PENDING} for i in range(1, 20) if f"C{i:02d}" not in _CLAIMED]
